@@ -13,6 +13,13 @@ Same conventions as `DL/Model/RegexSpec.lean` (`X i r attrs`: `i` input at the s
 Reused unchanged from there: the lexical classes, `Hex4Digits`, `RegExpUnicodeEscapeSequence[+U]` (only inside
 group names, where Annex B / ES2020 force Unicode-mode escapes), `DecimalEscape`, `Quantifier`, `GroupSpecifier`.
 
+**Ordered choice.**  Annex B.1.2: "These changes introduce ambiguities that are broken by the ordering of grammar
+productions and by contextual information.  When parsing using the following grammar, each alternative is considered
+only if previous production alternatives do not match."  Where two alternatives of a production can match at the same
+position, the later one therefore carries a side condition (marked `ordered choice:`) saying that the earlier ones do
+not match there.  This matters for one early error: the CharacterValues of the ends of a class range (`[\1-\0]` is
+`U+0001 – U+0000`, out of order; it must not be read as `U+0001 – "0"`).
+
 Written from memory of ES2022; points I am not certain about are marked **(?)**.
 -/
 namespace DL.RxSpecB
@@ -43,6 +50,14 @@ inductive LegacyOctalEscapeSequence : Str → Str → Nat → Prop
   | three (a b d : Nat) (r : Str) : ZeroToThree a → OctalDigit b → OctalDigit d →
       LegacyOctalEscapeSequence (a :: b :: d :: r) r (octVal a * 64 + octVal b * 8 + octVal d)
 
+/-- ordered choice, for `IdentityEscape`: at the text `x :: r` none of the earlier alternatives of `CharacterEscape`
+matches — `x` is not a `ControlEscape` letter, not an octal digit (`0`, a `LegacyOctalEscapeSequence`), not the `x` of a
+`HexEscapeSequence`, not the `u` of a `RegExpUnicodeEscapeSequence[~U]` (`c ControlLetter` is excluded by `x ≠ c`) -/
+def EarlierEscapeFree (x : Nat) (r : Str) : Prop :=
+  x ∉ [c 'f', c 'n', c 'r', c 't', c 'v'] ∧ ¬OctalDigit x ∧
+  ¬(x = c 'x' ∧ ∃ a b r', r = a :: b :: r' ∧ HexDigit a ∧ HexDigit b) ∧
+  ¬(x = c 'u' ∧ ∃ r' v, Hex4Digits r r' v)
+
 /-- `CharacterEscape[~U, N]`, with its CharacterValue
 ```
   ControlEscape | c ControlLetter | 0 [lookahead ∉ DecimalDigit] | HexEscapeSequence
@@ -62,6 +77,7 @@ inductive CharacterEscape (nf : Bool) : Str → Str → Nat → Prop
   | unicode (m r : Str) (v : Nat) : Hex4Digits m r v → CharacterEscape nf (c 'u' :: m) r v
   | legacyOctal (i r : Str) (v : Nat) : LegacyOctalEscapeSequence i r v → CharacterEscape nf i r v
   | identity (x : Nat) (r : Str) : SourceCharacter x → x ≠ c 'c' → (nf = true → x ≠ c 'k') →
+      EarlierEscapeFree x r →          -- ordered choice: no earlier alternative of `CharacterEscape` matches here
       CharacterEscape nf (x :: r) r x
 
 /-- `CharacterClassEscape[~U] :: d | D | s | S | w | W` (no `\p` without `u`) -/
@@ -110,7 +126,10 @@ inductive GroupSpecifier : Str → Str → Option Name → Prop
 inductive AtomEscape (nf : Bool) (N : Nat) : Str → Str → Attr → Prop
   | decimal (i r : Str) (v : Nat) : DecimalEscape i r v → v ≤ N → AtomEscape nf N i r Attr.nil
   | characterClass (i r : Str) : CharacterClassEscape i r → AtomEscape nf N i r Attr.nil
-  | character (i r : Str) (v : Nat) : CharacterEscape nf i r v → AtomEscape nf N i r Attr.nil
+  | character (i r : Str) (v : Nat) : CharacterEscape nf i r v →
+      (¬∃ r' v', DecimalEscape i r' v' ∧ v' ≤ N) →       -- ordered choice: no `DecimalEscape` (≤ NcapturingParens) here
+      (¬∃ r', CharacterClassEscape i r') →               -- ordered choice: no `CharacterClassEscape` here
+      AtomEscape nf N i r Attr.nil
   | named (m r : Str) (n : Name) : nf = true → GroupName m r n → AtomEscape nf N (c 'k' :: m) r ⟨[], [n]⟩
 
 /-! ## character classes -/
@@ -123,7 +142,10 @@ inductive ClassEscape (nf : Bool) : Str → Str → Option Nat → Prop
   | b (r : Str) : ClassEscape nf (c 'b' :: r) r (some 8)
   | classControl (l : Nat) (r : Str) : ClassControlLetter l → ClassEscape nf (c 'c' :: l :: r) r (some (l % 32))
   | characterClass (i r : Str) : CharacterClassEscape i r → ClassEscape nf i r none
-  | character (i r : Str) (v : Nat) : CharacterEscape nf i r v → ClassEscape nf i r (some v)
+  | character (i r : Str) (v : Nat) : CharacterEscape nf i r v →
+      i.head? ≠ some (c 'b') →                           -- ordered choice: not `b`
+      (¬∃ r', CharacterClassEscape i r') →               -- ordered choice: no `CharacterClassEscape` here
+      ClassEscape nf i r (some v)
 
 /-- `ClassAtomNoDash[~U, N] :: SourceCharacter but not one of \ or ] or - | \ ClassEscape | \ [lookahead = c]`;
 the last alternative matches the `\` alone (its CharacterValue is U+005C) -/
@@ -131,7 +153,10 @@ inductive ClassAtomNoDash (nf : Bool) : Str → Str → Option Nat → Prop
   | char (x : Nat) (r : Str) : SourceCharacter x → x ≠ c '\\' → x ≠ c ']' → x ≠ c '-' →
       ClassAtomNoDash nf (x :: r) r (some x)
   | escape (m r : Str) (v : Option Nat) : ClassEscape nf m r v → ClassAtomNoDash nf (c '\\' :: m) r v
-  | backslashC (r : Str) : ClassAtomNoDash nf (c '\\' :: c 'c' :: r) (c 'c' :: r) (some (c '\\'))
+  | backslashC (r : Str) :
+      -- ordered choice: `\ ClassEscape` does not match (`c` is followed neither by a `ClassControlLetter` nor a letter)
+      (∀ l, r.head? = some l → ¬ClassControlLetter l ∧ ¬ControlLetter l) →
+      ClassAtomNoDash nf (c '\\' :: c 'c' :: r) (c 'c' :: r) (some (c '\\'))
 
 inductive ClassAtom (nf : Bool) : Str → Str → Option Nat → Prop
   | dash (r : Str) : ClassAtom nf (c '-' :: r) r (some (c '-'))
@@ -174,6 +199,10 @@ def ExtendedPatternCharacter (x : Nat) : Prop :=
 inductive Sym where
   | Disjunction | Alternative | Term | Assertion | QuantifiableAssertion | ExtendedAtom
 
+/-- the text starts with one of the assertions `\b`, `\B` (the only texts that are an `Assertion` and also the
+beginning of an `ExtendedAtom`) -/
+def StartsWordBoundary (i : Str) : Prop := ∃ r, i = c '\\' :: c 'b' :: r ∨ i = c '\\' :: c 'B' :: r
+
 /--
 ```
 Disjunction :: Alternative | Alternative `|` Disjunction
@@ -200,8 +229,11 @@ inductive Derives (nf : Bool) (qok : Nat → Nat → Prop) (N : Nat) : Sym → S
       Quantifier qok m r → Derives nf qok N .Term i r a
   | termAssertion (i r : Str) (a : Attr) : Derives nf qok N .Assertion i r a → Derives nf qok N .Term i r a
   | termAtomQuantified (i m r : Str) (a : Attr) : Derives nf qok N .ExtendedAtom i m a → Quantifier qok m r →
+      ¬StartsWordBoundary i →                            -- ordered choice: the `Assertion`s `\b`, `\B` come first
       Derives nf qok N .Term i r a
-  | termAtom (i r : Str) (a : Attr) : Derives nf qok N .ExtendedAtom i r a → Derives nf qok N .Term i r a
+  | termAtom (i r : Str) (a : Attr) : Derives nf qok N .ExtendedAtom i r a →
+      ¬StartsWordBoundary i →                            -- ordered choice: the `Assertion`s `\b`, `\B` come first
+      Derives nf qok N .Term i r a
   -- Assertion
   | caret (r : Str) : Derives nf qok N .Assertion (c '^' :: r) r Attr.nil
   | dollar (r : Str) : Derives nf qok N .Assertion (c '$' :: r) r Attr.nil
@@ -221,7 +253,10 @@ inductive Derives (nf : Bool) (qok : Nat → Nat → Prop) (N : Nat) : Sym → S
   -- ExtendedAtom
   | dot (r : Str) : Derives nf qok N .ExtendedAtom (c '.' :: r) r Attr.nil
   | atomEscape (m r : Str) (a : Attr) : AtomEscape nf N m r a → Derives nf qok N .ExtendedAtom (c '\\' :: m) r a
-  | backslashC (r : Str) : Derives nf qok N .ExtendedAtom (c '\\' :: c 'c' :: r) (c 'c' :: r) Attr.nil
+  | backslashC (r : Str) :
+      -- ordered choice: `\ AtomEscape` does not match (`c` is not followed by a `ControlLetter`)
+      (∀ l, r.head? = some l → ¬ControlLetter l) →
+      Derives nf qok N .ExtendedAtom (c '\\' :: c 'c' :: r) (c 'c' :: r) Attr.nil
   | characterClass (i r : Str) : CharacterClass nf i r → Derives nf qok N .ExtendedAtom i r Attr.nil
   | group (m₁ m₂ r : Str) (name : Option Name) (a : Attr) : GroupSpecifier m₁ m₂ name →
       Derives nf qok N .Disjunction m₂ (c ')' :: r) a →
